@@ -88,7 +88,12 @@ def check_shape(run, rng, model, m, tier, light=False):
         named = [members[i] for i in pyres if members[i]["opt"]]
         # (the build log is the tail of one make run over all modules: this module's lines)
         blog = "\n".join(x for x in m.get("build_log", "").splitlines() if x.startswith(m["name"] + "/"))
-        if named and "error:" in blog and all(re.search(r"unknown type name .%s_t" % re.escape(c_name(x["name"])), blog) for x in named) and \
+        # (and it may have scrolled out of that tail: the generated text itself is the witness)
+        try:
+            ctext = open(os.path.join(m["dir"], "Frame.c"), errors="replace").read()
+        except OSError:
+            ctext = ""
+        if named and all("const %s_t *constraining_value = (const %s_t *)memb_ptr;" % (c_name(x["name"]), c_name(x["name"])) in ctext for x in named) and \
            not re.search(r"error: (?!unknown type name .(%s)_t)" % "|".join(re.escape(c_name(x["name"])) for x in named), blog):
             run.known_finding("C18-optional-identifier-wide-selector", m["name"])
             return
